@@ -13,5 +13,5 @@ INVARIANT MaxPOK
 PROPERTY NewGetsMax
 PROPERTY SampleOK
 CONSTRAINT Bound
-VIEW core
+VIEW coreN
 CHECK_DEADLOCK FALSE
